@@ -140,3 +140,23 @@ contract("verif.harness.ecc.schnorr_verify_bytes", props=("C02",), nl_uf=True,
          ensures=["implies(returns(), result == spec.schnorr.verify(spec.curve.x_of(pub).to_bytes(32, 'big'), msg, sig))",
                   "implies(raises(), not spec.schnorr.verify(spec.curve.x_of(pub).to_bytes(32, 'big'), msg, sig))"],
          gen=_gen_schnorr_verify)
+
+contract("verif.harness.ecc.schnorr_sig_init", props=("C02",), nl_uf=True,
+         params={"r_point": point, "s": "int"},
+         raises={"ValueError": "s >= spec.schnorr.N"},
+         ensures=["implies(returns(), result == s)"],
+         gen=lambda rng, tier: ({"r_point": {"__point__": 5}, "s": v} for v in (0, 1, N - 1, N, N + 1, 2**256 - 1, 2**256)))
+
+
+def _gen_tagged(rng, tier):
+    for tag in (b"BIP0340/aux", b"BIP0340/nonce", b"BIP0340/challenge", b"TapLeaf", b"TapBranch", b"TapTweak", b"TapSighash", b"", b"x" * 70):
+        for n in (0, 1, 31, 32, 33, 64, 100):
+            yield {"tag": tag, "msg": rand_bytes(rng, n)}
+    while True:
+        yield {"tag": rand_bytes(rng, rng.randrange(0, 40)), "msg": rand_bytes(rng, rng.randrange(0, 100))}
+
+
+contract("verif.harness.ecc.tagged", props=("C02",),
+         params={"tag": ("choice", [b"BIP0340/aux", b"BIP0340/nonce", b"BIP0340/challenge", b"TapLeaf", b"TapBranch", b"TapTweak", b"TapSighash", b"KeyAgg list", b"KeyAgg coefficient", b"MuSig/noncecoef"]),
+                 "msg": "bytes"},
+         ensures=["returns()", "result == spec.schnorr.tagged(tag, msg)", "len(result) == 32"], gen=_gen_tagged)
